@@ -12,7 +12,7 @@
    events:
      WriteCall n | WriteRet n e t | CloseCall | CloseRet e t | SinkWrite n e t(digest so far) b
      Read n c e t b | SrcRead n e | Ret n e t b | Commit n(status) c(Content-Length, -1 none) t
-     ErrFunc n e t | HandlerRet | GateOpen | Blocked | Panic
+     ErrFunc n e t | HandlerRet | GateOpen | Blocked | Panic | LateWriteRet n e t | Close2Ret e t
      hook.writer.exit e t | hook.reader.exit e t | hook.writer.closewaited
      hook.response.select t | hook.response.passthrough t                                *)
 EXTENDS Integers, Sequences
@@ -24,7 +24,7 @@ St0(h0) == [n |-> 0, h |-> h0, b |-> <<>>,
             sel |-> "", selt |-> "",
             ret |-> FALSE, rete |-> "", rett |-> "",
             readend |-> "", readt |-> "",
-            errfunc |-> FALSE, erre |-> "", errt |-> "", errsame |-> 0]
+            errfunc |-> FALSE, erre |-> "", errt |-> "", errsame |-> 0, close2 |-> FALSE]
 
 Apply(s, e, S) ==
   CASE e.k = "SinkWrite" ->
@@ -46,6 +46,7 @@ Apply(s, e, S) ==
     [] e.k = "hook.response.select" -> [s EXCEPT !.sel = "select", !.selt = e.t]
     [] e.k = "hook.response.passthrough" -> [s EXCEPT !.sel = "passthrough", !.selt = e.t]
     [] e.k = "Commit" -> IF s.commit THEN s ELSE [s EXCEPT !.commit = TRUE, !.ccl = e.c]
+    [] e.k = "Close2Ret" -> [s EXCEPT !.close2 = TRUE]
     [] e.k = "ErrFunc" -> [s EXCEPT !.errfunc = TRUE, !.erre = e.e, !.errt = e.t, !.errsame = e.n]
     [] OTHER -> s
 
@@ -97,6 +98,8 @@ FinalBad(s, S) ==
   LET r == RefErr(S) IN
   CASE S.mode = "writer" ->
          If(s.closeret, "CloseReturned: Close did not return")
+         \* C14 "Close always returns" - also when it is called again after a late Write
+         \cup If(S.after => s.close2, "CloseReturned: second Close did not return")
          \cup If(FF(S) => (s.closee = r.e /\ s.closet = r.t), "CloseWaits: Close result differs from the plain call's error")
          \cup If(FF(S) => Delivered(s, S), "ChunkingInvariance: final bytes differ from the plain call")
     [] S.mode = "reader" ->
@@ -106,6 +109,7 @@ FinalBad(s, S) ==
                  "ChunkingInvariance: reader ended differently from the plain call")
     [] S.mode \in RespModes ->
          If(s.closeret, "CloseReturned: Close / ServeHTTP did not return")
+         \cup If(S.after => s.close2, "CloseReturned: second Close did not return")
          \cup If(FF(S) => Delivered(s, S),
                  "SelectionRule/ChunkingInvariance: response body differs from the plain call with the selected mediatype")
          \cup If(FF(S) /\ S.mode = "response" /\ ~Ambiguous(S) => (s.closee = r.e /\ s.closet = r.t),
@@ -132,5 +136,8 @@ DesignBad(s, e, S) ==
     [] e.k = "hook.writer.exit" -> If(e.e # "nil" \/ s.lastn = 0, "no zero-length probe")   \* WProbeSink is the last sink call
     [] e.k = "hook.writer.closewaited" -> If(s.exit, "Close passed wg.Wait before worker exit")   \* PCloseRet needs wgdone
     [] e.k = "CloseRet" /\ HasWorker(s, S) -> If(s.waited, "CloseRet without closewaited")
+    [] e.k = "LateWriteRet" -> If(e.e = "closedpipe", "Write after Close is not ErrClosedPipe")    \* PLateWrite
+    [] e.k = "Close2Ret" -> If(e.e = "nil", "second Close is not nil")                               \* PClose2
+    [] e.k = "ErrFunc" -> If(e.n = 1, "error function not called with the wrapped ResponseWriter")
     [] OTHER -> {}
 =============================================================================
